@@ -1080,6 +1080,7 @@ class XsdUnion(XsdSimpleType):
     def _parse(self) -> None:
         mt: Any
         self.member_types = []
+        local_types = []  # the simpleType children follow the types of the memberTypes attribute
 
         for child in self.elem:
             if child.tag != nm.XSD_ANNOTATION and not callable(child.tag):
@@ -1087,7 +1088,7 @@ class XsdUnion(XsdSimpleType):
                 if isinstance(mt, XMLSchemaParseError):
                     self.parse_error(mt)
                 else:
-                    self.member_types.append(mt)
+                    local_types.append(mt)
 
         if 'memberTypes' in self.elem.attrib:
             for name in self.elem.attrib['memberTypes'].split():
@@ -1119,6 +1120,7 @@ class XsdUnion(XsdSimpleType):
 
                 self.member_types.append(mt)
 
+        self.member_types.extend(local_types)
         if not self.member_types:
             self.parse_error(_("missing xs:union type declarations"))
             self.member_types = [self.maps.any_atomic_type]
